@@ -367,8 +367,12 @@ func ClientCheck(sc sim.CScenario, h *sim.CHistory) []Problem {
 					matched = true // the property is silent about what such a member completes with
 				}
 			}
-			if !matched && c.class == "rpcerror" && (stopped || ctxEnded) && c.code != 0 && len(mine) == 0 {
+			if !matched && c.class == "rpcerror" && stopped && c.code != 0 && len(mine) == 0 {
 				matched = true // e.g. an internal error reported for a failed channel
+			}
+			// an entry of a Batch carries the context's error as an error object with the context code
+			if !matched && c.class == "rpcerror" && c.kind == "batch" && ((c.code == -32097 && (ctxEnded || stopped)) || (c.code == -32096 && deadlinePassed)) {
+				matched = true
 			}
 			if !matched && c.class == "rpcerror" && stopped {
 				matched = true
@@ -378,7 +382,12 @@ func ClientCheck(sc sim.CScenario, h *sim.CHistory) []Problem {
 				for _, r := range mine {
 					sent = append(sent, fmt.Sprintf("%s:%s", r.kind, r.payload))
 				}
-				add("C04/wrong-reply", "%s completed with %s %s, which is not a reply the peer sent for its id (first-come); replies sent for the id: %v", name, c.class, c.data, sent)
+				if (ctxEnded || deadlinePassed) && len(admissible) == 0 {
+					// no reply had arrived and its context had ended: it must end with the context's own error
+					add("C05/context-error-replaced", "%s: its context ended (%s) before any reply arrived, yet it returned %s %s instead of the context's error", name, c.ctxKind, c.class, c.data)
+				} else {
+					add("C04/wrong-reply", "%s completed with %s %s, which is not a reply the peer sent for its id (first-come); replies sent for the id: %v", name, c.class, c.data, sent)
+				}
 			}
 		case "canceled":
 			if !(ctxEnded && c.ctxKind == "canceled") && !stopped {
